@@ -31,7 +31,9 @@ def make_f(ls, sign):
 
 
 def one_pair(args):
-    name, ls, seed, n_iter = args
+    name, ls, seed, n_iter = args[:4]
+    kw = args[4] if len(args) > 4 else {}
+    label = args[5] if len(args) > 5 else name
     import warnings, logging
     warnings.filterwarnings("ignore")
     logging.disable(logging.CRITICAL)
@@ -41,20 +43,20 @@ def one_pair(args):
     f_true = make_f(ls, 1)
     for sign in (1, -1):
         try:
-            opt = cls(space, random_state=seed)
+            opt = cls(space, random_state=seed, **kw)
             with scen.time_limit(120):
                 opt.search(make_f(ls, sign), n_iter=n_iter, verbosity=False)
         except C.Infra:
             raise
         except Exception as e:  # noqa
-            return dict(name=name, seed=seed, error=type(e).__name__)
+            return dict(name=label, seed=seed, error=type(e).__name__)
         vals = [f_true({k: row[k] for k in space}) for row in opt.results_mang.results_list]
         half = vals[len(vals) // 2:]
         res.append((float(np.mean(half)), [tuple(int(x) for x in p) for p in opt.pos_l]))
-    return dict(name=name, seed=seed, up=res[0][0], down=res[1][0], same_points=res[0][1] == res[1][1])
+    return dict(name=label, seed=seed, up=res[0][0], down=res[1][0], same_points=res[0][1] == res[1][1])
 
 
-def sign_test(r, quick, names, seeds):
+def sign_test(r, quick, names, seeds, variants=True):
     jobs = []
     for name in names:
         n_iter = 40 if name in gen.SMBO else 150
@@ -63,6 +65,12 @@ def sign_test(r, quick, names, seeds):
             ls = landscape(C.rng(f"C09-ls-{name}-{k}"), 2 if name in gen.SMBO else r.choice([1, 2, 3]))
             for sd in seeds:
                 jobs.append((name, ls, sd, n_iter))
+        if name in gen.SMBO and name != "LipschitzOptimizer" and variants:
+            # candidate subsampling active: the surrogate is evaluated on a random subset of the space
+            ls = dict(landscape(C.rng(f"C09-ls-sub-{name}"), 2), sizes=[40, 40])
+            ls["opt"] = [int(o * 39 / max(1, s - 1)) for o, s in zip(ls["opt"], landscape(C.rng(f"C09-ls-sub-{name}"), 2)["sizes"])]
+            for sd in seeds:
+                jobs.append((name, ls, sd, n_iter, {"sampling": {"random": 100}}, name + "|sampling.random=100"))
     out = {}
     with ProcessPoolExecutor(max_workers=14) as ex:
         for res in ex.map(one_pair, jobs, chunksize=2):
@@ -109,23 +117,35 @@ def run():
                 continue
             if not ok:
                 continue
-            frac = sum(1 for x in ok if x["up"] > x["down"]) / len(ok)
-            if 0.5 <= frac < 0.75:
-                # double the seed set once
-                more = sign_test(r, quick, [name], [C.rng(f"C09-seed2-{i}").randrange(100000) for i in range(len(seeds))])
-                ok += [x for x in more.get(name, []) if "error" not in x]
+            # sequential paired sign test with a wide margin: healthy optimizers favour f in 90-100 % of the pairs.
+            #   all pairs favour f -> directed;   otherwise the seed set is doubled (pass at >= 90 %), then grown to
+            #   6 x the first set; final verdict: NOT directed iff fewer than 70 % of all pairs favour f.
+            def fr():
+                return sum(1 for x in ok if x["up"] > x["down"]) / len(ok)
+            frac = fr()
+            stage_no = 0
+            while True:
+                if frac == 1.0 or (stage_no >= 1 and frac >= 0.9) or stage_no >= 2:
+                    break
+                stage_no += 1
+                k = len(seeds) * (1 if stage_no == 1 else 4)
+                more = sign_test(r, quick, [name.split('|')[0]], [C.rng(f"C09-seed{stage_no + 1}-{i}").randrange(100000) for i in range(k)], variants="|" in name)
+                add = [x for x in more.get(name, []) if "error" not in x]
                 n += 2 * len(more.get(name, []))
-                frac = sum(1 for x in ok if x["up"] > x["down"]) / len(ok)
+                if not add:
+                    break
+                ok += add
+                frac = fr()
             summary[name] = "%d/%d pairs favour f (%.0f %%)" % (sum(1 for x in ok if x["up"] > x["down"]), len(ok), 100 * frac)
-            if frac < 0.5:
+            if frac < 0.7:
                 fails.append(dict(signature=f"C09|{name}|not-directed", detail=f"paired sign test: {summary[name]}", case=dict(opt=name, seeds=[x["seed"] for x in ok][:10], results=[(round(x["up"], 2), round(x["down"], 2)) for x in ok][:10])))
-            keys.add((name, "directed" if frac >= 0.75 else ("margin" if frac >= 0.5 else "not-directed")))
+            keys.add((name, "directed" if frac >= 0.9 else ("margin" if frac >= 0.7 else "not-directed")))
         return n, fails, keys, summary
 
     st = chk.stage("paired sign test", stage)
     if st:
         n, fails, keys, summary = st
-        chk.monitor("paired runs on f and -f (unimodal, optimum near a corner, 3 sign regimes): score-blind optimizers evaluate identical points; every other optimizer must favour f in >= 75 % of the pairs (50-75 %: seed set doubled once; < 50 %: failing input)",
+        chk.monitor("paired runs on f and -f (unimodal, optimum near a corner, 3 sign regimes): score-blind optimizers evaluate identical points; every other optimizer (and the surrogate optimizers with candidate subsampling on) must favour f: sequential test - all pairs, else seed set doubled (>= 90 %), else 6 x seeds; fewer than 70 % of all pairs favouring f is a failing input",
                     n, fails, keys, [summary])
     chk.assumptions.append("the statistical half of C09 ('seed for seed higher') is examined by the paired sign test only - it is not a theorem about any executable model")
     scen.shutdown_manager()
